@@ -286,12 +286,14 @@ def r4b_candidates(ctx):
                 if nx:
                     x = T.typed(calllog.payload(calllog.call_term(nx[0])), 'u32')
                 else:
+                    # the element at a position q of the predecessor list, and the loop goes on from q + 1 (q is this loop's own
+                    # position, or the position its filtering adaptor stopped at)
                     x = bid[0][1][1]
-                    ok = (len(poss) == 1 and x[0] == 'elem' and x[2] == poss[0] and x[1][0] == 'items' and x[1][1][0] == 'call' and x[1][1][1].endswith('block_elements') and
-                          ip.entails(it.state, eq(it.cur.get(poss[0], poss[0]), T.mk_add(poss[0], I(1)))))
+                    ok = (len(poss) == 1 and x[0] == 'elem' and x[2][0] == 'var' and '@bb' in x[2][1] and x[1][0] == 'items' and x[1][1][0] == 'call' and x[1][1][1].endswith('block_elements') and
+                          ip.entails(it.state, eq(it.cur.get(poss[0], poss[0]), T.mk_add(x[2], I(1)))))
                 b = T.typed(calllog.call_term(bid[0]), 'u32')
                 big = lt(I(1), T.typed(calllog.call_term(bsz[0]), 'u32'))
-                ok = bid[0][1] == (main, x) and bsz[0][1] == (main, b)
+                ok = ok and bid[0][1] == (main, x) and bsz[0][1] == (main, b)
                 if ok and ip.entails(it.state, big):
                     ok = len(ins) == 1 and ins[0][1][1] == b
                     kinds.add('inserted')
